@@ -14,7 +14,7 @@ HEADER = """#![allow(warnings)]
 #![recursion_limit = "1024"]
 use vrt::*;
 use join::*;
-use vexec::harness::{AProg, gated, gated_r, gated2};
+use vexec::harness::{AProg, gated, gated_r, gated2, gvia};
 use vexec::gate;
 use vexec::Root;
 use futures::future::ready;
